@@ -95,6 +95,9 @@ type Op struct {
 	Ctx    int      `json:"ctx,omitempty"`
 	Ord    []int    `json:"ord,omitempty"`
 	Flat   bool     `json:"flat,omitempty"` // part of a flattened module twin: skipped once an earlier flat op failed
+	// NoWait (cancel only): the next operation (a Close of an ancestor or of the provider) is started while the
+	// watcher goroutines of the cancelled context are still closing their scopes - an application shutting down
+	NoWait bool `json:"nowait,omitempty"`
 }
 
 type Inst struct {
